@@ -12,6 +12,8 @@ import Yarel.Gen.Rules
 import Yarel.Gen.Limits
 import Yarel.Gen.Messages
 import Yarel.Spec.Machine
+import Yarel.Spec.NativeTables
+import Yarel.Gen.Natives
 namespace Yarel.Spec
 
 def PrefixFn.rustName : PrefixFn → String
@@ -58,5 +60,12 @@ theorem spec_limits_are_the_sources :
     Yarel.Gen.limits.lookup "INTERPOLATION_DEPTH_MAX" = some (Scanner.interpolationDepthMax : Int) ∧
     Yarel.Gen.limits.lookup "RANGE_CACHE_SIZE" = some (Heap.rangeCacheSize : Int) := by decide +kernel
 #print axioms spec_limits_are_the_sources
+
+/-- Every built-in class of (S) binds the same method names to the same natives, in the same order, as the function of
+core.rs that builds the class does now (the tables `bootstrap` installs are `NativeTables.*`). -/
+theorem spec_natives_are_the_sources :
+    NativeTables.all.map (fun e => (e.1, e.2.map fun b => (b.1, b.2.rustName.getD "<none>"))) = Yarel.Gen.nativeBindings := by
+  decide +kernel
+#print axioms spec_natives_are_the_sources
 
 end Yarel.Spec
